@@ -1,183 +1,15 @@
 //@ inject crate=dc src=dc/s2n-quic-dc/src/packet/datagram/decoder.rs
-// Contract harnesses for the dc datagram-packet codec (property C18): encode/decode round trip, announced length,
-// AEAD coverage (AAD = every byte before the payload), decoder totality.
+// Contract harnesses for the dc datagram-packet decoder (property C18): totality and structural well-formedness of
+// what it hands out.
 use super::*;
-use crate::packet::datagram::encoder;
-use s2n_codec::EncoderBuffer;
-use s2n_quic_core::packet::KeyPhase;
 include!("_pkt_common.rs");
 
-const HMAX: usize = 2; // application header bytes
-const CMAX: usize = 4; // control data bytes
-const PMAX: usize = 4; // payload bytes
-const BUF: usize = 112; // longest packet with these bounds: 1+16+8+1+2+8+1+8+1+1+2+4+4+16 = 73
+// NOT ACHIEVED within budget: encode -> decode round trip of datagram packets.  The symbolic-shape harness and the
+// concrete shape "all fields" did not finish in 40 min; the concrete shapes "connected" (the production call site) and
+// "minimal" discharged every obligation but needed 38 and 29 min (load 35-70), far beyond the 10-minute rule.  The drafts
+// are kept in probes/kani_dc_packet_round_trip_drafts.rs.  datagram::encoder::encode is therefore NOT under contract.
 
-fn eq_small(a: &[u8], b: &[u8]) -> bool {
-    a.len() == b.len()
-        && (a.len() < 1 || a[0] == b[0])
-        && (a.len() < 2 || a[1] == b[1])
-        && (a.len() < 3 || a[2] == b[2])
-        && (a.len() < 4 || a[3] == b[3])
-        && a.len() <= 4
-}
-
-/// seal::Application stand-in (A-aead): XORs the payload with a key byte, tag = keyed function of header and nonce;
-/// records the slices it was given.
-struct SealKey {
-    k: StandInKey,
-    phase: bool,
-    nonce: Cell<u64>,
-    aad: Cell<(*const u8, usize)>,
-    out: Cell<(*const u8, usize)>,
-    extra_len: Cell<usize>,
-}
-
-impl crate::crypto::seal::Application for SealKey {
-    fn key_phase(&self) -> KeyPhase {
-        if self.phase {
-            KeyPhase::One
-        } else {
-            KeyPhase::Zero
-        }
-    }
-
-    fn tag_len(&self) -> usize {
-        TAGLEN
-    }
-
-    fn encrypt(&self, packet_number: u64, header: &[u8], extra_payload: Option<&[u8]>, payload_and_tag: &mut [u8]) {
-        self.nonce.set(packet_number);
-        self.aad.set((header.as_ptr(), header.len()));
-        self.out.set((payload_and_tag.as_ptr(), payload_and_tag.len()));
-        let extra = extra_payload.unwrap_or(&[]);
-        self.extra_len.set(extra.len());
-        // same split as crypto/awslc.rs: [inline plaintext | room for the extra payload | tag]
-        let inline_len = payload_and_tag.len() - TAGLEN - extra.len();
-        let x = self.k.key[15];
-        let mut i = 0;
-        while i < inline_len {
-            payload_and_tag[i] ^= x;
-            i += 1;
-        }
-        let mut j = 0;
-        while j < extra.len() {
-            payload_and_tag[inline_len + j] = extra[j] ^ x;
-            j += 1;
-        }
-        let t = self.k.mac(header, packet_number).to_be_bytes();
-        let n = payload_and_tag.len();
-        payload_and_tag[n - TAGLEN..].copy_from_slice(&t);
-    }
-}
-
-//@ harness props=C18 tier=thorough level=bounded timeout=1800 bound="application header <= 2 bytes, control data <= 4 bytes, payload <= 4 bytes; all integer fields full-domain"
-//@ fn packet::datagram::encoder::encode
-//@ fn packet::datagram::decoder::Packet::decode
-#[kani::proof]
-#[kani::unwind(8)]
-fn vq_c18_datagram_round_trip() {
-    let source_control_port: u16 = kani::any();
-    let packet_number = any_opt_varint();
-    let next_expected = any_opt_varint();
-    // call-site fact (datagram/tunneled/send.rs, and the FIXME in encoder.rs): an ack-eliciting datagram always
-    // carries a packet number; encode() unwraps it
-    kani::assume(next_expected.is_none() || packet_number.is_some());
-    let credentials = any_credentials();
-    let hdr: [u8; HMAX] = kani::any();
-    let hl: usize = kani::any();
-    kani::assume(hl <= HMAX);
-    let cd: [u8; CMAX] = kani::any();
-    let cl: usize = kani::any();
-    kani::assume(cl <= CMAX);
-    let pl_bytes: [u8; PMAX] = kani::any();
-    let pl: usize = kani::any();
-    kani::assume(pl <= PMAX);
-    let key = SealKey {
-        k: StandInKey::new(),
-        phase: kani::any(),
-        nonce: Cell::new(0),
-        aad: Cell::new((core::ptr::null(), 0)),
-        out: Cell::new((core::ptr::null(), 0)),
-        extra_len: Cell::new(0),
-    };
-    let mut buf = [0u8; BUF];
-    let base = buf.as_ptr();
-
-    let mut header_storage: &[u8] = &hdr[..hl];
-    let control_data: &[u8] = &cd[..cl];
-    let mut payload_storage: &[u8] = &pl_bytes[..pl];
-    let len = encoder::encode(
-        EncoderBuffer::new(&mut buf),
-        source_control_port,
-        packet_number,
-        next_expected,
-        VarInt::new(hl as u64).unwrap(),
-        &mut header_storage,
-        &control_data,
-        VarInt::new(pl as u64).unwrap(),
-        &mut payload_storage,
-        &key,
-        &credentials,
-    );
-
-    // control data is only written for ack-eliciting datagrams
-    let cl_wire = if next_expected.is_some() { cl } else { 0 };
-    let has_pn = packet_number.is_some() || next_expected.is_some();
-    let aad_len = 1 + 16 + varint_len(credentials.key_id.as_u64()) + 1 + 2
-        + (if has_pn { varint_len(packet_number.unwrap().as_u64()) } else { 0 })
-        + varint_len(pl as u64)
-        + (match next_expected { Some(v) => varint_len(v.as_u64()) + varint_len(cl as u64), None => 0 })
-        + (if hl > 0 { varint_len(hl as u64) + hl } else { 0 })
-        + cl_wire;
-    assert!(len == aad_len + pl + TAGLEN, "C18/datagram.encode/encoded_len_as_announced");
-    assert!(key.aad.get() == (base, aad_len), "C18/datagram.encode/aad_is_every_byte_before_the_payload");
-    assert!(key.out.get() == (unsafe { base.add(aad_len) }, pl + TAGLEN) && key.extra_len.get() <= pl,
-            "C18/datagram.encode/payload_and_tag_are_the_rest_of_the_packet");
-    assert!(key.nonce.get() == (match packet_number { Some(v) => v.as_u64(), None => 0 }), "C18/datagram.encode/nonce_is_packet_number");
-    // tag byte: independent transcription of the bit layout 0100 A C H K
-    let tag_byte = 0b0100_0000u8
-        | (if next_expected.is_some() { 0b1000 } else { 0 })
-        | (if packet_number.is_some() { 0b0100 } else { 0 })
-        | (if hl > 0 { 0b0010 } else { 0 })
-        | (if key.phase { 0b0001 } else { 0 });
-    assert!(buf[0] == tag_byte, "C18/datagram.encode/tag_byte_layout");
-
-    let (packet, rest) = match Packet::decode(DecoderBufferMut::new(&mut buf[..len]), (), TAGLEN) {
-        Ok(v) => v,
-        Err(_) => {
-            assert!(false, "C18/datagram.round_trip/encoded_packet_decodes");
-            return;
-        }
-    };
-    assert!(rest.is_empty(), "C18/datagram.round_trip/nothing_left_over");
-    assert!(id_of(&packet.credentials().id) == id_of(&credentials.id) && packet.credentials().key_id == credentials.key_id,
-            "C18/datagram.round_trip/credentials");
-    assert!(packet.wire_version() == WireVersion::ZERO, "C18/datagram.round_trip/wire_version");
-    assert!(packet.source_control_port() == source_control_port, "C18/datagram.round_trip/source_control_port");
-    assert!(packet.packet_number().as_u64() == (if has_pn { packet_number.unwrap().as_u64() } else { 0 }),
-            "C18/datagram.round_trip/packet_number");
-    assert!(packet.crypto_nonce() == key.nonce.get(), "C18/datagram.round_trip/decoder_nonce_equals_encoder_nonce");
-    assert!(opt_u64(packet.next_expected_control_packet()) == opt_u64(next_expected), "C18/datagram.round_trip/next_expected_control_packet");
-    assert!(eq_small(packet.application_header(), &hdr[..hl]), "C18/datagram.round_trip/application_header");
-    assert!(eq_small(packet.control_data(), &cd[..cl_wire]), "C18/datagram.round_trip/control_data");
-    assert!(packet.header().as_ptr() == base && packet.header().len() == aad_len, "C18/datagram.round_trip/decoder_aad_equals_encoder_aad");
-    assert!(packet.payload().len() == pl && packet.auth_tag().len() == TAGLEN && packet.wire_len() == len,
-            "C18/datagram.round_trip/payload_and_tag_lengths");
-    // undo the stand-in cipher: the payload bytes are the ones passed in
-    let x = key.k.key[15];
-    let p = packet.payload();
-    assert!((pl < 1 || p[0] ^ x == pl_bytes[0]) && (pl < 2 || p[1] ^ x == pl_bytes[1]) && (pl < 3 || p[2] ^ x == pl_bytes[2])
-                && (pl < 4 || p[3] ^ x == pl_bytes[3]),
-            "C18/datagram.round_trip/payload_bytes");
-    assert!(be16(packet.auth_tag()) == key.k.mac(packet.header(), packet.crypto_nonce()), "C18/datagram.round_trip/sealed_packet_verifies");
-
-    kani::cover!(hl == HMAX && cl == CMAX && pl == PMAX && next_expected.is_some(), "reach:all_optional_fields");
-    kani::cover!(hl == 0 && pl == 0 && packet_number.is_none() && next_expected.is_none(), "reach:minimal_packet");
-    kani::cover!(next_expected.is_none() && cl > 0, "reach:control_data_dropped_when_not_ack_eliciting");
-    kani::cover!(true, "reach:end");
-}
-
-//@ harness props=C18 tier=thorough level=bounded timeout=1800 bound="input <= 48 bytes, contents and length symbolic (shortest valid packet: 38 bytes)"
+//@ harness props=C18 tier=thorough level=bounded timeout=2400 bound="input <= 48 bytes, contents and length symbolic (shortest valid packet: 38 bytes)"
 //@ fn packet::datagram::decoder::Packet::decode
 #[kani::proof]
 #[kani::unwind(8)]
